@@ -241,6 +241,22 @@ def h_shape_empty(open_start):
     prove("empty:scalar", em1 == w1 if isinstance(em1, symx.Sym) else (Not(w1) if not em1 else w1))
 
 
+def h_shape_reversed():
+    """roi_shape is documented as xx[roi].shape: for non-negative bounds (the only ones it can
+    resolve without the array length) a reversed slice selects nothing -- length 0, never negative"""
+    roi = roi_mod()
+    a, b = Int("start", 0), Int("stop", 0)
+    (d,) = roi.roi_shape(slice(a, b))
+    prove("shape_is_selection_length", d == s_max(b - a, 0))
+    (d2,) = roi.roi_shape(slice(None, b))
+    prove("shape_open_start", d2 == b)
+    prove("empty_iff_no_elements", _iff(roi.roi_is_empty(slice(a, b)), b <= a))
+
+
+def _iff(got, want):
+    return got == want if isinstance(got, symx.Sym) else (want if got else Not(want))
+
+
 def h_shape_open_stop():
     roi = roi_mod()
     a = slice(Int("a_start", 0), None)
@@ -253,14 +269,14 @@ def h_shape_open_stop():
 
 def h_full(kind):
     roi = roi_mod()
-    n = Int("n", 0)
-    s = mk_slice("s", kind)
+    n = Int("n", 1)
+    s = mk_slice("s", kind)  # any bounds incl. negative and reversed ...
+    # ... except beyond +n: the repository's own test pins roi_is_full(s_[0:4], 3) to False
+    # ("a slice larger than the array is not the array"), so that reading is not contested here
     if s.start is not None:
-        assume(And(0 <= s.start, s.start <= n))
+        assume(s.start <= n)
     if s.stop is not None:
-        assume(And(0 <= s.stop, s.stop <= n))
-    if s.start is not None and s.stop is not None:
-        assume(s.start <= s.stop)
+        assume(s.stop <= n)
     full = roi.roi_is_full(s, n)
     _, cnt = pysel(s.start, s.stop, n)
     want = cnt == n
@@ -576,6 +592,8 @@ OBLIGATIONS = [
     Ob("N4_shape_empty", h_shape_empty, fixed(dict(open_start=False), dict(open_start=True)),
        descr="roi_shape / roi_is_empty match the index sets", functions=("odc.geo.roi.roi_shape", "odc.geo.roi.roi_is_empty"),
        bounds="0 <= start <= stop", setup=setup),
+    Ob("N4_shape_reversed", h_shape_reversed, fixed(), descr="roi_shape == length of the selection for non-negative bounds, 0 (not negative) for reversed slices; roi_is_empty agrees",
+       functions=("odc.geo.roi.roi_shape", "odc.geo.roi.roi_is_empty"), bounds="start, stop >= 0 symbolic", setup=setup),
     Ob("N4_shape_open", h_shape_open_stop, fixed(),
        descr="roi_shape refuses an open right-hand side", functions=("odc.geo.roi.roi_shape",), setup=setup),
     Ob("N4_full", h_full, fixed(*[dict(kind=k) for k in KINDS]),
